@@ -208,6 +208,9 @@ pub fn run(cfg: &RunCfg, rep: &mut Report) {
     let max_leaves = if cfg.tier == Tier::Thorough { 8 } else { 5 };
     let nm = AbstractPolNames;
     for i in cfg.cases(total) {
+        if i >= 0x0800_0000 {
+            break;
+        }
         let mut rng = cfg.case_rng(i);
         let pcfg = PolGenCfg {
             max_leaves,
@@ -319,6 +322,88 @@ pub fn run(cfg: &RunCfg, rep: &mut Report) {
         // ground truth in the VM on a sample: real keys, wsh and tr
         if i % 3 == 0 {
             vm_sample(rep, i, &world, &p, &mut rng, cfg.tier);
+        }
+    }
+    // wide thresholds around the numeric limits of the contexts (20 / 21 keys for CHECKMULTISIG,
+    // 999 / 1000 for CHECKSIGADD and the 1000-element stack, 201 opcodes, 3600 / 10000 bytes): what
+    // the compiler returns must re-parse under the default rules of the same context and keep "k of n"
+    if cfg.only_case.is_none() || cfg.only_case.map(|c| c >= 0x0800_0000).unwrap_or(false) {
+        let mut idx = 0u64;
+        for n in [3usize, 15, 16, 17, 19, 20, 21, 22, 49, 50, 67, 100, 200, 250, 997, 998, 999, 1000, 1001] {
+            for k in [1usize, 2, n / 2, n - 1, n] {
+                let id = 0x0800_0000 + idx;
+                idx += 1;
+                let mine = match cfg.only_case {
+                    Some(c) => c == id,
+                    None => id % cfg.nshards == cfg.shard,
+                };
+                if !mine || k == 0 {
+                    continue;
+                }
+                let keys: Vec<String> = (0..n).map(|j| format!("W{}", j)).collect();
+                let pstr = format!("thresh({},{})", k, keys.iter().map(|x| format!("pk({})", x)).collect::<Vec<_>>().join(","));
+                let conc = match guarded(|| Concrete::<String>::from_str(&pstr)) {
+                    Ok(Ok(c)) => c,
+                    _ => continue,
+                };
+                let mut outs: Vec<(&str, Result<(), String>, bool)> = vec![];
+                macro_rules! wide {
+                    ($ctx:ty, $name:expr) => {{
+                        let c2 = conc.clone();
+                        rep.eval();
+                        match timed(rep, concat!("wide:", $name), move || c2.compile::<$ctx>()) {
+                            Ok(Ok(ms)) => {
+                                let text = ms.to_string();
+                                let re = guarded(|| Miniscript::<String, $ctx>::from_str(&text).map(|_| ()).map_err(|e| e.to_string()));
+                                outs.push(($name, re.unwrap_or_else(|m| Err(format!("panic: {}", m))), true));
+                                // meaning on sampled assignments with exactly k-1 and k keys present
+                                if let Ok(l) = ms.lift() {
+                                    let ls = l.to_string();
+                                    let kk = |x: &str| x.strip_prefix('W').and_then(|d| d.parse::<usize>().ok());
+                                    let hh = |_: &str| None;
+                                    if let Ok(lp) = parse_pol(&ls, &PolLookup { key: &kk, hash: &hh }) {
+                                        for have in [k.saturating_sub(1), k] {
+                                            let sigma = |a: &Atom| matches!(a, Atom::Key(j) if (*j + 3) % n < have);
+                                            if lp.eval(&sigma) != (have >= k) {
+                                                rep.violation(id, format!("C08:meaning-changed:wide:{}", $name), format!("{} of {} keys: the compiled {}-of-{} ({}) evaluates to {}", have, n, k, n, $name, lp.eval(&sigma)));
+                                            }
+                                        }
+                                    }
+                                }
+                            }
+                            Ok(Err(_)) => outs.push(($name, Ok(()), false)),
+                            Err(m) => compile_panicked(rep, id, $name, &m, &pstr),
+                        }
+                    }};
+                }
+                wide!(Segwitv0, "compile<Segwitv0>");
+                wide!(Legacy, "compile<Legacy>");
+                wide!(Tap, "compile<Tap>");
+                {
+                    let c2 = conc.clone();
+                    rep.eval();
+                    match timed(rep, "wide:compile_tr", move || c2.compile_tr(Some("UNSPENDABLE".to_string()))) {
+                        Ok(Ok(d)) => {
+                            let text = d.to_string();
+                            let re = guarded(|| Descriptor::<String>::from_str(&text).map(|_| ()).map_err(|e| e.to_string()));
+                            outs.push(("compile_tr", re.unwrap_or_else(|m| Err(format!("panic: {}", m))), true));
+                        }
+                        Ok(Err(_)) => outs.push(("compile_tr", Ok(()), false)),
+                        Err(m) => compile_panicked(rep, id, "compile_tr", &m, &pstr),
+                    }
+                }
+                for (name, re, compiled) in outs {
+                    if !compiled {
+                        rep.count(&format!("wide-refused:{}", name));
+                        continue;
+                    }
+                    rep.nontrivial(&format!("wide|{}|{}|{}", name, k, n));
+                    match re {
+                        Ok(()) => rep.count(&format!("wide-compiled-and-reparsed:{}", name)),
+                        Err(e) => rep.violation(id, format!("C08:output-does-not-reparse:wide:{}", name), format!("{}-of-{} keys compiled by {} does not re-parse under the default rules: {}", k, n, name, e)),
+                    }
+                }
+            }
         }
     }
     if rep.samples.is_empty() {
